@@ -57,7 +57,7 @@ def main():
                               "assume/assert contract harnesses and contract stubs for C++ units; bounded runs are labelled bounded",
         }],
         "checks": checks,
-        "notes": "exit 2 = undecided (tool limit, timeout, slice breakage); never reported as a violation. See DESIGN.md.",
+        "notes": "exit 2 = undecided (tool limit, timeout, slice breakage); never reported as a violation. Known findings (genuine defects still in /repo) are listed in /verif/known_findings.json with native demonstrations under /verif/findings/; fixed ones are listed there too. See DESIGN.md.",
         "not_applicable": [{"property_id": k, "reason": v} for k, v in sorted(na.items()) if k not in claimed],
     }
     missing = [p for p in ALL if p not in claimed and p not in na]
